@@ -375,6 +375,17 @@ pub fn add_zst_checkers(rng: &mut Rng, p: &mut Program) {
       if let Some(wk) = writer_kind { if !wk.determines_obs(&k) { k = RK::ZMost(rng.range(0, 4) as Val); } }
       replace(&mut p.tasks[t].ops, r, k);
     }
+    // Requires: all requires of one task by this task alike.
+    fn requires_of(ops: &[Op], out: &mut Vec<Tid>) { for op in ops { match op { Op::Require { task, .. } => out.push(*task), Op::If { then, els, .. } => { requires_of(then, out); requires_of(els, out); } Op::Switch { cases, .. } => { for c in cases { requires_of(c, out); } } _ => {} } } }
+    fn replace_req(ops: &mut [Op], u: Tid, k: OK) { for op in ops.iter_mut() { match op { Op::Require { task, chk } if *task == u => { *chk = k; } Op::If { then, els, .. } => { replace_req(then, u, k); replace_req(els, u, k); } Op::Switch { cases, .. } => { for c in cases.iter_mut() { replace_req(c, u, k); } } _ => {} } } }
+    let mut reqs = vec![];
+    requires_of(&p.tasks[t].ops, &mut reqs);
+    let mut seen_t = BTreeSet::new();
+    for u in reqs {
+      if !seen_t.insert(u) || !rng.chance(25) { continue; }
+      let k = if rng.chance(50) { OK::ZNever } else { OK::ZBelow(rng.range(0, 4) as Val) };
+      replace_req(&mut p.tasks[t].ops, u, k);
+    }
   }
 }
 
